@@ -1664,6 +1664,10 @@ pub fn run(opts: &Opts) {
             run_case(&mut out, s, &base, cyc, 30);
         }
     } else {
+        // in-process-only observations, counted in the histogram (never an oracle failure)
+        for sc in ["f13", "f14", "f15", "f15b"] {
+            run_scenario(&mut out, sc, &base);
+        }
         let cases = if opts.thorough() { 200 * opts.scale } else { 14 * opts.scale };
         for i in 0..cases {
             run_case(&mut out, opts.seed.wrapping_mul(1_000_003).wrapping_add(i), &base, cyc, 30);
